@@ -157,6 +157,14 @@ theorem leaf_strict : (c : Conv) → (v : Val) → c.admitsKind v.base.kind = fa
   | .pane .., _, h => Bool.noConfusion h
   | .nested _, _, h => Bool.noConfusion h
   | .custom _, _, h => Bool.noConfusion h
+  | .vol c, v, h => by
+    -- neither member: `c` rejects the kind (induction), and the value is not a real sequence
+    simp only [Conv.admitsKind, Bool.or_eq_false_iff, beq_eq_false_iff_ne, ne_eq] at h
+    obtain ⟨⟨⟨hc, h1⟩, h2⟩, h3⟩ := h
+    have hs : v.isSeq = false := by
+      cases v <;> first | rfl | exact absurd rfl h1 | exact absurd rfl h2 | exact absurd rfl h3
+    simp only [tryC, leaf_strict c v hc, seqTryWith, hs]
+    rfl
 
 /-! ## Lossless widening -/
 
@@ -211,7 +219,7 @@ theorem pane_reject {info cs} {v : Val} (hgate : Facts.paneTupleGateTry = some "
 /-- the diagnostic pass reports the same rejections as a `wrongType` leaf about the whole value -/
 theorem seq_reject_col {kind c} {v : Val} (h : v.isSeq = false) :
     colC E (.seq kind c) v = .ok (some (.wrongType (expected E (.seq kind c) false) v none none)) := by
-  simp only [colC, h]; rfl
+  simp only [colC, seqColWith, h]; rfl
 
 theorem tuple_reject_col {cs} {v : Val} (h : v.isSeq = false) :
     colC E (.tuple cs) v = .ok (some (.wrongType (expected E (.tuple cs) false) v none none)) := by
